@@ -2455,6 +2455,10 @@ class Trimesh(Geometry3D):
         elif util.allclose(matrix, _IDENTITY4, 1e-8):
             return self
 
+        # values are selectively kept in the cache below so make sure
+        # anything invalidated by an earlier in-place edit is dropped first
+        self._cache.verify()
+
         # new vertex positions
         new_vertices = transformations.transform_points(self.vertices, matrix=matrix)
 
